@@ -193,3 +193,53 @@ def check_forwarding(chk, c, rule, params, scope_names=None, exempt=None, only_c
         if ek not in used_exempt and chk.tier == 'thorough':
             chk.info('%s: exemption %s matched no call site on this tree' % (rule, ek,))
     return n
+
+
+# context parameters that exist only to satisfy a common interface (the implementation has nothing to configure with them)
+INTERFACE_ONLY = {
+    ('base_datatypes.BaseDataType.to_er7', 'encoding_chars'): 'non-textual values contain no delimiter to escape',
+    ('base_datatypes.DateTimeDataType.to_er7', 'encoding_chars'): 'strftime output contains no delimiter',
+    ('base_datatypes.TM.to_er7', 'encoding_chars'): 'strftime output contains no delimiter',
+    ('core.Element._handle_empty_children', 'encoding_chars'): 'template method, returns a constant',
+    ('core.Segment._handle_empty_children', 'encoding_chars'): 'template method, returns a constant',
+    ('core.SupportComplexDataType._handle_empty_children', 'encoding_chars'): 'template method, returns a constant',
+    ('factories.date_factory', 'validation_level'): 'DT takes no validation level (uniform factory signature)',
+    ('factories.datetime_factory', 'validation_level'): 'DTM takes no validation level (uniform factory signature)',
+    ('factories.timestamp_factory', 'validation_level'): 'TM takes no validation level (uniform factory signature)',
+}
+
+
+def dead_context_params(chk, c, rule, params, modules=('core', 'parser', 'factories', 'base_datatypes', 'validation')):
+    """a context parameter that a function accepts (and perhaps resolves) but never uses afterwards is a dropped context"""
+    te = c.te
+    n = 0
+    for fn in te.funcs:
+        mod = fn.module.name
+        if mod not in modules and not mod.endswith('base_datatypes'):
+            continue
+        for P in params:
+            if P not in fn.params + fn.kwonly:
+                continue
+            uses = 0
+            for nd in own_nodes(fn.node):
+                if isinstance(nd, ast.Name) and nd.id == P and isinstance(nd.ctx, ast.Load):
+                    stmt = nd
+                    while stmt is not None and not isinstance(stmt, ast.stmt):
+                        stmt = getattr(stmt, '_parent', None)
+                    if isinstance(stmt, ast.Assign) and any(isinstance(t, ast.Name) and t.id == P for t in stmt.targets):
+                        continue      # P = _get_P(P): resolution, not use
+                    if isinstance(stmt, ast.If) and any(x is nd for x in ast.walk(stmt.test)) and \
+                            ast.unparse(stmt.test) in ('%s is None' % P, 'not %s' % P):
+                        continue
+                    uses += 1
+            n += 1
+            if uses:
+                chk.ok(rule, '%s uses its %s' % (fn.qualname, P), '', fn.loc, key='%s|%s|%s' % (rule, fn.qualname, P))
+            elif (fn.qualname, P) in INTERFACE_ONLY:
+                chk.ok(rule, '%s(%s)' % (fn.qualname, P), 'interface-only: ' + INTERFACE_ONLY[(fn.qualname, P)], fn.loc,
+                       key='%s|%s|%s' % (rule, fn.qualname, P))
+            else:
+                chk.fail(rule, '%s never uses its %s' % (fn.qualname, P),
+                         'the function accepts (and resolves) %s but nothing it does depends on it any more: whatever it computes uses '
+                         'some other %s (a default, or that of another object)' % (P, P), fn.loc, key='%s|%s|%s' % (rule, fn.qualname, P))
+    return n
